@@ -42,7 +42,7 @@ def shards(tier, seed):
 
 
 def min_required(tier):
-    return {"rejected_calls_snapshotted": 800, "readonly_calls_snapshotted": 40}
+    return {"rejected_calls_snapshotted": 500, "readonly_calls_snapshotted": 40}
 
 
 def build_cases(tier="quick"):
